@@ -1759,6 +1759,10 @@ func (t *Tree) CopyEdge(e *Edge, copy *Edge) {
 	copy.support = e.support
 	copy.pvalue = e.pvalue
 	copy.id = e.id
+	copy.comment = make([]string, len(e.comment))
+	for i, c := range e.comment {
+		copy.comment[i] = c
+	}
 	if e.bitset != nil {
 		copy.bitset = e.bitset.Clone()
 	}
